@@ -169,6 +169,41 @@ theorem C10_dec_prefix_pass (P : Prims) (pw : Bytes) (src : Src) (k : Snk) (hs :
     obtain ⟨h5, rfl, rfl⟩ := h4 hok
     exact ⟨by simp, h5⟩
 
+/-- **C10 (b′), key mode — ALL scripts, no hypothesis at all.** If the I/O run succeeds, then the bytes it consumed
+    (`n = s'.pos - src.pos` of them, a prefix of the file) are by themselves a complete file on which the pure `key_decrypt`
+    succeeds with the same sender, and exactly its output was written. The reader's declared end of stream is the end of the
+    file; with `noFalseEof` the consumed bytes are the whole file (`C10_dec_prefix_key`). -/
+theorem C10_dec_ok_consumed_key (P : Prims) (r rpk : Bytes) (src : Src) (k : Snk)
+    {s' : Src} {k' : Snk} {sender : Option Bytes}
+    (hIO : keyDecryptIO P r rpk src k = (.ok, s', k', sender)) :
+    ∃ n writes, s'.pos = src.pos + n ∧ n ≤ src.inp.length ∧ s'.inp = src.inp.drop n ∧
+      keyDecrypt P r rpk (src.inp.take n) = (writes, .ok, sender) ∧ k'.out = k.out ++ writes.flatten := by
+  obtain ⟨s2, pk, h, spk, hlen, hv, hrm, hpk, hi2, hp2, hd, rfl⟩ := keyDecryptIO_ok hIO
+  obtain ⟨n1, ws1, h1, h2, h3, h4, h5⟩ := decLoopIO_ok_consumed P.aead _ [] chunkSize _ 0 s2 k s' k' (Nat.le_refl _) hd
+  obtain ⟨t1, t2, t3, t4⟩ := take_header src.inp 4 handshakeLen n1 hlen
+  have hs2l : s2.inp.length = src.inp.length - 4 - handshakeLen := by rw [hi2]; simp only [List.length_drop]
+  refine ⟨4 + handshakeLen + n1, ws1, by omega, by omega, ?_, ?_, h5⟩
+  · rw [h3, hi2, List.drop_drop, List.drop_drop, Nat.add_assoc]
+  · rw [keyDecrypt_of_header t4 (by rw [t1]; exact hv) (by rw [t1, t2]; exact hrm) hpk, t3, ← hi2]
+    have : decryptChunks P.aead (P.hkdfFile pk h) [] chunkSize (s2.inp.take n1) = (ws1, .ok) := by
+      unfold decryptChunks; exact h4 _ (by rw [List.length_take]; omega)
+    rw [this]; simp
+
+/-- **C10 (b′), password mode — ALL scripts, no hypothesis at all.** -/
+theorem C10_dec_ok_consumed_pass (P : Prims) (pw : Bytes) (src : Src) (k : Snk)
+    {s' : Src} {k' : Snk}
+    (hIO : passDecryptIO P pw src k = (.ok, s', k')) :
+    ∃ n writes, s'.pos = src.pos + n ∧ n ≤ src.inp.length ∧ s'.inp = src.inp.drop n ∧
+      passDecrypt P pw (src.inp.take n) = (writes, .ok) ∧ k'.out = k.out ++ writes.flatten := by
+  obtain ⟨s2, hlen, hv, hi2, hp2, hd⟩ := passDecryptIO_ok hIO
+  obtain ⟨n1, ws1, h1, h2, h3, h4, h5⟩ := decLoopIO_ok_consumed P.aead _ _ chunkSize _ 0 s2 k s' k' (Nat.le_refl _) hd
+  obtain ⟨t1, t2, t3, t4⟩ := take_header src.inp 4 32 n1 hlen
+  have hs2l : s2.inp.length = src.inp.length - 4 - 32 := by rw [hi2]; simp only [List.length_drop]
+  refine ⟨4 + 32 + n1, ws1, by omega, by omega, ?_, ?_, h5⟩
+  · rw [h3, hi2, List.drop_drop, List.drop_drop, Nat.add_assoc]
+  · rw [passDecrypt_of_header t4 (by rw [t1]; exact hv), t1, t2, t3, ← hi2]
+    unfold decryptChunks; exact h4 _ (by rw [List.length_take]; omega)
+
 /-! ### C10 — which side an error comes from -/
 
 /-- **C10 error side (key mode), ALL scripts.** `ioWrite` only if the sink misbehaved; `ioRead` only if the source misbehaved
@@ -269,5 +304,210 @@ theorem C04_order_pass (P : Prims) (hA : P.aead.Lawful) (pw : Bytes) (hkdf : ∀
       (Src.noFalseEof_of_suffix hs hsc) (Nat.le_refl _) (Nat.le_refl _) hd hpd
     rw [hp2] at this
     exact this
+
+/-! ### non-vacuity: concrete scripts with a short read, an `Interrupted`, a 1-byte-accepting sink -/
+
+namespace C10decEx
+
+def pw : Bytes := [1]
+def salt : Bytes := zeros 32
+def ckey : Bytes := toyPrims.kdf pw salt
+
+/-- a two-chunk password-mode file over the toy primitives: chunk `[7,8]`, then the final chunk `[9]` (103 bytes) -/
+def file : Bytes :=
+  encPassMagic ++ salt ++ (record toyPrims.aead ckey encPassMagic (be64 0) 0 false [7,8] ++
+    record toyPrims.aead ckey encPassMagic (be64 1) 1 true [9])
+
+/-- fault-free: the magic arrives as 3 + 1 bytes, the first record header as 5 + 11, its body as 3 + 1 + rest, … -/
+def ffSrc : Src := ⟨file, [.data 3, .data 1, .data 40, .data 5, .data 100, .data 3, .data 1], 0, 0⟩
+
+/-- benign: additionally `Interrupted` inside `read_exact` calls (retried) -/
+def bnSrc : Src := ⟨file, [.data 3, .errInterrupted, .data 1, .data 40, .data 5, .errInterrupted, .data 100, .data 3], 0, 0⟩
+
+/-- benign, but the `Interrupted` lands exactly on the trailing-data probe -/
+def probeIntSrc : Src := ⟨file, [.data 4, .data 32, .data 16, .data 18, .data 16, .data 17, .errInterrupted], 0, 0⟩
+
+/-- a hard error in the middle of the second record's body -/
+def hardErrSrc : Src := ⟨file, [.data 4, .data 32, .data 16, .data 18, .data 16, .data 5, .errOther], 0, 0⟩
+
+/-- one trailing byte after the final record, and a reader that answers the probe with `Ok(0)` -/
+def falseEofSrc : Src := ⟨file ++ [99], [.data 4, .data 32, .data 16, .data 18, .data 16, .data 17, .data 0], 0, 0⟩
+
+/-- a sink that accepts one byte at a time (twice), is interrupted in between, then takes everything -/
+def snk : Snk := { ws := [.accept 1, .errInterrupted, .accept 1], fs := [.ok] }
+
+/-- a sink that takes one byte and then fails hard -/
+def badSnk : Snk := { ws := [.accept 1, .errOther] }
+
+theorem ffSrc_faultFree : ffSrc.faultFree := by
+  intro e he
+  simp only [ffSrc, List.mem_cons, List.mem_nil_iff, or_false] at he
+  rcases he with rfl | rfl | rfl | rfl | rfl | rfl | rfl <;> exact ⟨_, rfl, by decide⟩
+
+theorem bnSrc_benign : bnSrc.benign := by
+  intro e he
+  simp only [bnSrc, List.mem_cons, List.mem_nil_iff, or_false] at he
+  rcases he with rfl | rfl | rfl | rfl | rfl | rfl | rfl | rfl <;>
+    first | exact Or.inr rfl | exact Or.inl ⟨_, rfl, by decide⟩
+
+theorem probeIntSrc_benign : probeIntSrc.benign := by
+  intro e he
+  simp only [probeIntSrc, List.mem_cons, List.mem_nil_iff, or_false] at he
+  rcases he with rfl | rfl | rfl | rfl | rfl | rfl | rfl <;>
+    first | exact Or.inr rfl | exact Or.inl ⟨_, rfl, by decide⟩
+
+theorem hardErrSrc_noFalseEof : hardErrSrc.noFalseEof := by
+  intro e he
+  simp only [hardErrSrc, List.mem_cons, List.mem_nil_iff, or_false] at he
+  rcases he with rfl | rfl | rfl | rfl | rfl | rfl | rfl <;> simp
+
+theorem snk_benign : snk.benign := by
+  refine ⟨fun e he => ?_, fun e he => ?_⟩
+  · simp only [snk, List.mem_cons, List.mem_nil_iff, or_false] at he
+    rcases he with rfl | rfl | rfl <;> first | exact Or.inr rfl | exact Or.inl ⟨_, rfl, by decide⟩
+  · simpa [snk] using he
+
+theorem toy_kdf_len (pw salt : Bytes) : (toyPrims.kdf pw salt).length = 32 := by
+  simp [toyPrims, zeros]; omega
+
+/-- a fault-free script over an arbitrary file: 1 byte, a read larger than anything asked for, 3 bytes, then unrestricted -/
+def shortSrc (inp : Bytes) : Src := ⟨inp, [.data 1, .data 70000, .data 3], 0, 0⟩
+
+theorem shortSrc_faultFree (inp : Bytes) : (shortSrc inp).faultFree := by
+  intro e he
+  simp only [shortSrc, List.mem_cons, List.mem_nil_iff, or_false] at he
+  rcases he with rfl | rfl | rfl <;> exact ⟨_, rfl, by decide⟩
+
+/-! the pure run, and what the scripted runs really do (evaluated) -/
+
+example : passDecrypt toyPrims pw file = ([[7,8],[9]], .ok) := by decide
+
+example : (passDecryptIO toyPrims pw ffSrc snk).1 = .ok ∧ (passDecryptIO toyPrims pw ffSrc snk).2.2.out = [7,8,9] := by decide
+example : (passDecryptIO toyPrims pw bnSrc snk).1 = .ok ∧ (passDecryptIO toyPrims pw bnSrc snk).2.2.out = [7,8,9] := by decide
+
+/-- interrupted probe: `ioRead`, the final chunk `[9]` withheld — the second alternative of `C10_dec_benign_pass` is live,
+    and `C10_dec_partition_independence_*` cannot be extended from `faultFree` to `benign` sources -/
+example : (passDecryptIO toyPrims pw probeIntSrc snk).1 = .ioRead ∧ (passDecryptIO toyPrims pw probeIntSrc snk).2.2.out = [7,8] := by
+  decide
+
+/-- forged end-of-stream on the probe: the I/O run succeeds and writes `[9]`, the pure run on all the bytes says
+    `unexpectedData` and writes only `[7,8]` — `noFalseEof` cannot be dropped from C04 / `C10_dec_prefix_*` -/
+example : (passDecryptIO toyPrims pw falseEofSrc snk).1 = .ok ∧ (passDecryptIO toyPrims pw falseEofSrc snk).2.2.out = [7,8,9] ∧
+    passDecrypt toyPrims pw falseEofSrc.inp = ([[7,8]], .unexpectedData) := by decide
+
+/-- failing sink: `ioWrite` with a partial chunk `q = [7]` — the `q ≠ []` alternative of C04 is live -/
+example : (passDecryptIO toyPrims pw ffSrc badSnk).1 = .ioWrite ∧ (passDecryptIO toyPrims pw ffSrc badSnk).2.2.out = [7] := by decide
+
+/-- hard read error inside record 1: `ioRead`, chunk 0 whole, nothing of chunk 1 -/
+example : (passDecryptIO toyPrims pw hardErrSrc snk).1 = .ioRead ∧ (passDecryptIO toyPrims pw hardErrSrc snk).2.2.out = [7,8] := by decide
+
+/-- the log of the good run, newest first: chunk 1 written at file offset 103 = 36 + 34 + 33, chunk 0 (two 1-byte writes) at 70 -/
+example : (passDecryptIO toyPrims pw ffSrc snk).2.2.log = [⟨103, 11, 1⟩, ⟨70, 8, 1⟩, ⟨70, 8, 1⟩] := by decide
+
+/-! every property theorem applied to concrete values (all hypotheses discharged) -/
+
+example : (passDecryptIO toyPrims pw ffSrc snk).1 = (passDecrypt toyPrims pw file).2 ∧
+    (passDecryptIO toyPrims pw ffSrc snk).2.2.out = snk.out ++ (passDecrypt toyPrims pw file).1.flatten :=
+  C10_dec_partition_independence_pass toyPrims pw ffSrc snk ffSrc_faultFree snk_benign rfl rfl
+
+example (P : Prims) (r rpk inp : Bytes) :
+    (keyDecryptIO P r rpk (shortSrc inp) snk).1 = (keyDecrypt P r rpk inp).2.1 ∧
+    (keyDecryptIO P r rpk (shortSrc inp) snk).2.2.2 = (keyDecrypt P r rpk inp).2.2 ∧
+    (keyDecryptIO P r rpk (shortSrc inp) snk).2.2.1.out = snk.out ++ (keyDecrypt P r rpk inp).1.flatten :=
+  C10_dec_partition_independence_key P r rpk (shortSrc inp) snk (shortSrc_faultFree inp) snk_benign rfl rfl
+
+/-- C01 lifted to the I/O level: the ciphertext of C01's example decrypts to the plaintext and names the sender under EVERY
+    fault-free read script, through the 1-byte sink -/
+example : ∃ ct, keyEncrypt toyPrims (zeros 32) (zeros 32) (List.replicate 32 1) (List.replicate 32 2) (List.replicate 32 2)
+      (List.replicate 32 7) exampleReads = (ct, Res.ok) ∧
+    ∀ script : List RdEv, (⟨ct, script, 0, 0⟩ : Src).faultFree →
+      (keyDecryptIO toyPrims (List.replicate 32 1) (List.replicate 32 1) ⟨ct, script, 0, 0⟩ snk).1 = .ok ∧
+      (keyDecryptIO toyPrims (List.replicate 32 1) (List.replicate 32 1) ⟨ct, script, 0, 0⟩ snk).2.2.2 = some (zeros 32) ∧
+      (keyDecryptIO toyPrims (List.replicate 32 1) (List.replicate 32 1) ⟨ct, script, 0, 0⟩ snk).2.2.1.out = exampleReads.flatten := by
+  obtain ⟨ct, henc, ⟨writes, hdec, hw⟩, _⟩ := C01_roundtrip toyPrims toyPrims_lawful (zeros 32) (zeros 32) (List.replicate 32 1)
+    (List.replicate 32 1) (List.replicate 32 2) (List.replicate 32 2) (List.replicate 32 7) exampleReads
+    (List.length_replicate ..) (List.length_replicate ..) (List.length_replicate ..)
+    (toy_dhAgree _ _ _) exampleReads_wf exampleReads_le
+  refine ⟨ct, henc, fun script hff => ?_⟩
+  obtain ⟨h1, h2, h3⟩ := C10_dec_partition_independence_key toyPrims _ _ ⟨ct, script, 0, 0⟩ snk hff snk_benign rfl hdec
+  exact ⟨h1, h2, h3.trans (by rw [hw]; rfl)⟩
+
+example := C10_dec_benign_pass toyPrims pw probeIntSrc snk probeIntSrc_benign snk_benign
+  (res := (passDecryptIO toyPrims pw probeIntSrc snk).1) (s' := (passDecryptIO toyPrims pw probeIntSrc snk).2.1)
+  (k' := (passDecryptIO toyPrims pw probeIntSrc snk).2.2) (writes := (passDecrypt toyPrims pw file).1)
+  (pres := (passDecrypt toyPrims pw file).2) rfl rfl
+
+example (P : Prims) (r rpk inp : Bytes) := C10_dec_benign_key P r rpk (shortSrc inp) snk (shortSrc_faultFree inp).benign snk_benign
+  (res := (keyDecryptIO P r rpk (shortSrc inp) snk).1) (s' := (keyDecryptIO P r rpk (shortSrc inp) snk).2.1)
+  (k' := (keyDecryptIO P r rpk (shortSrc inp) snk).2.2.1) (sender := (keyDecryptIO P r rpk (shortSrc inp) snk).2.2.2)
+  (writes := (keyDecrypt P r rpk inp).1) (pres := (keyDecrypt P r rpk inp).2.1) (psender := (keyDecrypt P r rpk inp).2.2) rfl rfl
+
+example := C04_whole_chunks_pass toyPrims pw hardErrSrc badSnk hardErrSrc_noFalseEof
+  (res := (passDecryptIO toyPrims pw hardErrSrc badSnk).1) (s' := (passDecryptIO toyPrims pw hardErrSrc badSnk).2.1)
+  (k' := (passDecryptIO toyPrims pw hardErrSrc badSnk).2.2) (writes := (passDecrypt toyPrims pw file).1)
+  (pres := (passDecrypt toyPrims pw file).2) rfl rfl
+
+example (P : Prims) (r rpk inp : Bytes) := C04_whole_chunks_key P r rpk (shortSrc inp) badSnk (shortSrc_faultFree inp).noFalseEof
+  (res := (keyDecryptIO P r rpk (shortSrc inp) badSnk).1) (s' := (keyDecryptIO P r rpk (shortSrc inp) badSnk).2.1)
+  (k' := (keyDecryptIO P r rpk (shortSrc inp) badSnk).2.2.1) (sender := (keyDecryptIO P r rpk (shortSrc inp) badSnk).2.2.2)
+  (writes := (keyDecrypt P r rpk inp).1) (pres := (keyDecrypt P r rpk inp).2.1) (psender := (keyDecrypt P r rpk inp).2.2) rfl rfl
+
+example := C10_dec_prefix_pass toyPrims pw hardErrSrc badSnk hardErrSrc_noFalseEof
+  (res := (passDecryptIO toyPrims pw hardErrSrc badSnk).1) (s' := (passDecryptIO toyPrims pw hardErrSrc badSnk).2.1)
+  (k' := (passDecryptIO toyPrims pw hardErrSrc badSnk).2.2) (writes := (passDecrypt toyPrims pw file).1)
+  (pres := (passDecrypt toyPrims pw file).2) rfl rfl
+
+example (P : Prims) (r rpk inp : Bytes) := C10_dec_prefix_key P r rpk (shortSrc inp) badSnk (shortSrc_faultFree inp).noFalseEof
+  (res := (keyDecryptIO P r rpk (shortSrc inp) badSnk).1) (s' := (keyDecryptIO P r rpk (shortSrc inp) badSnk).2.1)
+  (k' := (keyDecryptIO P r rpk (shortSrc inp) badSnk).2.2.1) (sender := (keyDecryptIO P r rpk (shortSrc inp) badSnk).2.2.2)
+  (writes := (keyDecrypt P r rpk inp).1) (pres := (keyDecrypt P r rpk inp).2.1) (psender := (keyDecrypt P r rpk inp).2.2) rfl rfl
+
+/-- (b′) on the forged-end-of-stream run: it succeeds having consumed 103 of the 104 bytes, and those 103 bytes are a valid file -/
+example : ∃ n writes, (passDecryptIO toyPrims pw falseEofSrc snk).2.1.pos = falseEofSrc.pos + n ∧ n ≤ falseEofSrc.inp.length ∧
+    (passDecryptIO toyPrims pw falseEofSrc snk).2.1.inp = falseEofSrc.inp.drop n ∧
+    passDecrypt toyPrims pw (falseEofSrc.inp.take n) = (writes, .ok) ∧
+    (passDecryptIO toyPrims pw falseEofSrc snk).2.2.out = snk.out ++ writes.flatten :=
+  C10_dec_ok_consumed_pass toyPrims pw falseEofSrc snk
+    (show passDecryptIO toyPrims pw falseEofSrc snk = (.ok, (passDecryptIO toyPrims pw falseEofSrc snk).2.1,
+      (passDecryptIO toyPrims pw falseEofSrc snk).2.2) from Prod.ext (by decide) rfl)
+
+/-- (b′), key mode: the success hypothesis is satisfiable (C01's ciphertext under every fault-free script) -/
+example : ∃ ct : Bytes, ∀ script : List RdEv, (⟨ct, script, 0, 0⟩ : Src).faultFree →
+    ∃ n writes, n ≤ ct.length ∧
+      keyDecrypt toyPrims (List.replicate 32 1) (List.replicate 32 1) (ct.take n) = (writes, .ok, some (zeros 32)) := by
+  obtain ⟨ct, _, ⟨writes, hdec, _⟩, _⟩ := C01_roundtrip toyPrims toyPrims_lawful (zeros 32) (zeros 32) (List.replicate 32 1)
+    (List.replicate 32 1) (List.replicate 32 2) (List.replicate 32 2) (List.replicate 32 7) exampleReads
+    (List.length_replicate ..) (List.length_replicate ..) (List.length_replicate ..)
+    (toy_dhAgree _ _ _) exampleReads_wf exampleReads_le
+  refine ⟨ct, fun script hff => ?_⟩
+  obtain ⟨h1, h2, _⟩ := C10_dec_partition_independence_key toyPrims _ _ ⟨ct, script, 0, 0⟩ snk hff snk_benign rfl hdec
+  obtain ⟨n, w, _, hn, _, hk, _⟩ := C10_dec_ok_consumed_key toyPrims (List.replicate 32 1) (List.replicate 32 1) ⟨ct, script, 0, 0⟩ snk
+    (show keyDecryptIO toyPrims (List.replicate 32 1) (List.replicate 32 1) ⟨ct, script, 0, 0⟩ snk = (.ok, _, _, some (zeros 32)) from
+      Prod.ext h1 (Prod.ext rfl (Prod.ext rfl h2)))
+  exact ⟨n, w, hn, hk⟩
+
+/-- no hypothesis on the scripts at all -/
+example := C10_dec_error_side_pass toyPrims pw falseEofSrc badSnk
+  (res := (passDecryptIO toyPrims pw falseEofSrc badSnk).1) (s' := (passDecryptIO toyPrims pw falseEofSrc badSnk).2.1)
+  (k' := (passDecryptIO toyPrims pw falseEofSrc badSnk).2.2) (writes := (passDecrypt toyPrims pw falseEofSrc.inp).1)
+  (pres := (passDecrypt toyPrims pw falseEofSrc.inp).2) rfl rfl
+
+example (P : Prims) (r rpk : Bytes) (src : Src) (k : Snk) := C10_dec_error_side_key P r rpk src k
+  (res := (keyDecryptIO P r rpk src k).1) (s' := (keyDecryptIO P r rpk src k).2.1)
+  (k' := (keyDecryptIO P r rpk src k).2.2.1) (sender := (keyDecryptIO P r rpk src k).2.2.2)
+  (writes := (keyDecrypt P r rpk src.inp).1) (pres := (keyDecrypt P r rpk src.inp).2.1) (psender := (keyDecrypt P r rpk src.inp).2.2) rfl rfl
+
+example := C04_order_pass toyPrims toyPrims_lawful.aead pw (toy_kdf_len pw) ffSrc snk ffSrc_faultFree.noFalseEof
+  (res := (passDecryptIO toyPrims pw ffSrc snk).1) (s' := (passDecryptIO toyPrims pw ffSrc snk).2.1)
+  (k' := (passDecryptIO toyPrims pw ffSrc snk).2.2) (writes := (passDecrypt toyPrims pw file).1)
+  (pres := (passDecrypt toyPrims pw file).2) rfl rfl
+
+example (r rpk inp : Bytes) := C04_order_key toyPrims toyPrims_lawful r rpk (shortSrc inp) snk (shortSrc_faultFree inp).noFalseEof
+  (res := (keyDecryptIO toyPrims r rpk (shortSrc inp) snk).1) (s' := (keyDecryptIO toyPrims r rpk (shortSrc inp) snk).2.1)
+  (k' := (keyDecryptIO toyPrims r rpk (shortSrc inp) snk).2.2.1) (sender := (keyDecryptIO toyPrims r rpk (shortSrc inp) snk).2.2.2)
+  (writes := (keyDecrypt toyPrims r rpk inp).1) (pres := (keyDecrypt toyPrims r rpk inp).2.1)
+  (psender := (keyDecrypt toyPrims r rpk inp).2.2) rfl rfl
+
+end C10decEx
 
 end Kestrel
